@@ -235,7 +235,9 @@ func newDssScen(c *kc.Ctx, h *shG, rng *kc.Rng, n, t int, source string) *dssSce
 		sc.secs = append(sc.secs, x)
 		sc.parts = append(sc.parts, h.pt(x))
 	}
-	sc.msg = rng.Bytes(rng.Intn(40))
+	// message lengths: short ones and lengths around the block sizes of SHA-512 (the signature is an EdDSA
+	// signature on the message itself, whatever its length)
+	sc.msg = rng.Bytes([]int{0, 1, 31, 32, 33, 63, 64, 111, 112, 127, 128, 129, 200, 255, 256, 257, 1000}[rng.Intn(17)] + rng.Intn(2))
 	var err error
 	switch source {
 	case "poly":
